@@ -33,6 +33,25 @@ IGNORED = ("ign.c", "build/gen.py")
 # file that Git ignores): target of the link, relative to the project root
 TOML_LINKS = {"dangling-out": "../sentinel/new5.txt", "live-out": "../sentinel/keep.txt", "dangling-in": "conf/nowhere.toml",
               "live-in": "conf/reuse.toml", "live-in-source": "a.c"}
+# tree flavour "dl": `.reuse/dep5` (or `.reuse` itself) is a symbolic link.  name -> (files inside the project, files in the sentinel
+# directory, links; "<TOP>" = the scratch directory, for absolute targets, "<DEP5>" = the dep5 text)
+DEP5_LINKS = {
+    "file-in": ({"debian/copyright": "<DEP5>"}, {}, {".reuse/dep5": "../debian/copyright"}),
+    "file-out": ({".reuse/keep.txt": "k\n"}, {"copyright": "<DEP5>"}, {".reuse/dep5": "../../sentinel/copyright"}),
+    "abs-out": ({}, {"copyright": "<DEP5>"}, {".reuse/dep5": "<TOP>/sentinel/copyright"}),
+    "abs-in": ({"debian/copyright": "<DEP5>"}, {}, {".reuse/dep5": "<TOP>/proj/debian/copyright"}),
+    "chain-in": ({"debian/copyright": "<DEP5>"}, {}, {".reuse/dep5": "dep5.real", ".reuse/dep5.real": "../debian/copyright"}),
+    "chain-out": ({}, {"copyright": "<DEP5>"}, {".reuse/dep5": "../pkg", "pkg": "../sentinel/copyright"}),
+    "sibling-in": ({".reuse/dep5.in": "<DEP5>"}, {}, {".reuse/dep5": "dep5.in"}),
+    "dir-in": ({"packaging/reuse/dep5": "<DEP5>"}, {}, {".reuse": "packaging/reuse"}),
+    "dir-in-link": ({"debian/copyright": "<DEP5>", "packaging/reuse/other.txt": "o\n"}, {}, {".reuse": "packaging/reuse", "packaging/reuse/dep5": "../../debian/copyright"}),
+    "dir-out": ({}, {"reuse-dir/dep5": "<DEP5>", "reuse-dir/templates/t.jinja2": "t\n"}, {".reuse": "../sentinel/reuse-dir"}),
+    "dir-out-link": ({}, {"reuse-dir/other.txt": "o\n", "copyright": "<DEP5>"}, {".reuse": "../sentinel/reuse-dir", "../sentinel/reuse-dir/dep5": "../copyright"}),
+    "dangling": ({".reuse/keep.txt": "k\n"}, {}, {".reuse/dep5": "../nowhere/copyright"}),
+}
+# the snapshot key of the directory entry `.reuse/dep5` where `.reuse` is itself a link (the walk of the snapshot does not follow links)
+DEP5_ENTRY = {"dir-in": "packaging/reuse/dep5", "dir-in-link": "packaging/reuse/dep5", "dir-out": "../sentinel/reuse-dir/dep5",
+              "dir-out-link": "../sentinel/reuse-dir/dep5"}
 # tree flavour "sub": projects below the top of the repository (`reuse --root pkg/app`, `--root src`, `--root pkg`), with ignore rules
 # at the top (.gitignore: *_local.py, build/, *.ign.c), below (pkg/app/.gitignore: secret.c, /tmp_*/) and in .git/info/exclude (*.tmp.c)
 SUB_ROOTS = ["pkg/app", "src", "pkg"]
@@ -86,7 +105,11 @@ def tree_of(case):
         files[".gitignore"] = files.get(".gitignore", "") + "REUSE.toml\n"
     elif t.get("tl") == "dir":
         files["REUSE.toml/keep.txt"] = "a directory of that name\n"
-    if t.get("lic") == "dep5":
+    if t.get("lic") == "dep5" and t.get("dl"):
+        inside, _, dlinks = DEP5_LINKS[t["dl"]]
+        files.update({n: DEP5 if c == "<DEP5>" else c for n, c in inside.items()})
+        links.update(dlinks)
+    elif t.get("lic") == "dep5":
         files[".reuse/dep5"] = DEP5
     elif t.get("lic") == "toml":
         files["REUSE.toml"] = TOML
@@ -113,14 +136,23 @@ def tree_of(case):
     return files, links
 
 
+def sentinel_of(case):
+    t = case["tree"]
+    out = dict(SENTINEL)
+    if t.get("lic") == "dep5" and t.get("dl"):
+        out.update({n: DEP5 if c == "<DEP5>" else c for n, c in DEP5_LINKS[t["dl"]][1].items()})
+    return out
+
+
 def materialise(top, case):
     files, links = tree_of(case)
     proj = os.path.join(top, "proj")
     os.makedirs(proj)
     cli.write_tree(proj, files)
-    cli.write_tree(os.path.join(top, "sentinel"), SENTINEL)
+    cli.write_tree(os.path.join(top, "sentinel"), sentinel_of(case))
     for n, target in links.items():
-        os.symlink(target, os.path.join(proj, n))
+        os.makedirs(os.path.dirname(os.path.join(proj, n)), exist_ok=True)
+        os.symlink(target.replace("<TOP>", top), os.path.join(proj, n))
     os.chmod(os.path.join(proj, "ro.c"), 0o444)
     if case["tree"].get("git"):
         subprocess.run(["git", "init", "-q"], cwd=proj, check=True, capture_output=True)
@@ -281,7 +313,7 @@ def allowed_for(case, cmd, s0):
     if k == "spdx-o":
         return {os.path.normpath(cmd["out"])}, True
     if k == "convert-dep5":
-        return {R("REUSE.toml"), R(".reuse/dep5")}, True
+        return {R("REUSE.toml"), dep5_entry(case)}, True
     if k == "download":
         al = set()
         if cmd.get("out"):
@@ -305,14 +337,27 @@ def allowed_for(case, cmd, s0):
     raise ValueError(k)
 
 
+def dep5_entry(case):
+    """the snapshot key of the directory entry `.reuse/dep5` of the project"""
+    t = case["tree"]
+    if t.get("lic") == "dep5" and t.get("dl") in DEP5_ENTRY:
+        return DEP5_ENTRY[t["dl"]]
+    return os.path.normpath(os.path.join(root_rel(case), ".reuse/dep5"))
+
+
 def judge(case, cmd, s0, s1, g0, g1):
     al, may_modify = allowed_for(case, cmd, s0)
+    entry = dep5_entry(case) if cmd["cmd"] == "convert-dep5" else None
     what = " ".join(argv_of(case, cmd)) + (" (in %s)" % case["cwd"] if case.get("cwd", ".") != "." else "")
     if g0 != g1:
         return "git-metadata: `reuse %s` changed .git/index, HEAD or config" % what
     for rel in sorted(set(s0) | set(s1)):
         a, b = s0.get(rel), s1.get(rel)
         if a == b:
+            continue
+        if rel == entry and b is None:
+            # the documented effect of convert-dep5: the ENTRY `.reuse/dep5` goes -- a regular file or a symbolic link (the link,
+            # never what it points to); where `.reuse` itself is a link, the entry lives in the directory `.reuse` points to
             continue
         if rel.startswith(".."):
             return "outside-project: `reuse %s` changed %s outside the project (%s -> %s)" % (what, rel, a, b)
@@ -327,9 +372,9 @@ def judge(case, cmd, s0, s1, g0, g1):
             return "overwrite: `reuse %s` may only add files but changed the existing %s" % (what, rel)
     if cmd["cmd"] == "convert-dep5":
         ch = {rel for rel in al if s0.get(rel) != s1.get(rel)}
-        toml, dep5 = os.path.normpath(os.path.join(root_rel(case), "REUSE.toml")), os.path.normpath(os.path.join(root_rel(case), ".reuse/dep5"))
-        if ch and not (toml not in s0 and toml in s1 and dep5 in s0 and dep5 not in s1):
-            return "convert-shape: convert-dep5 did something other than creating REUSE.toml and removing .reuse/dep5: %s" % sorted(ch)
+        toml, dep5 = os.path.normpath(os.path.join(root_rel(case), "REUSE.toml")), entry
+        if ch and not (toml not in s0 and toml in s1 and s1[toml][0] == "file" and dep5 in s0 and dep5 not in s1):
+            return "convert-shape: convert-dep5 did something other than creating the file REUSE.toml and removing the entry .reuse/dep5: %s" % sorted(ch)
     return None
 
 
@@ -425,6 +470,8 @@ class CommandStream(Stream):
         t = {"git": git, "tracked": git and rng.random() < 0.6, "lic": rng.choice(["dep5", "dep5", "toml", "none"]),
              "sibs": ["b.py"] if rng.random() < 0.3 else [], "sl": rng.random() < 0.3, "dsl": rng.random() < 0.25,
              "lr": rng.choice([None, None, None, "file", "link", "dangling"]) if not self.modelled else None}
+        if t["lic"] == "dep5" and not self.modelled and rng.random() < 0.4:
+            t["dl"] = rng.choice(sorted(DEP5_LINKS))    # .reuse/dep5 (or .reuse) is a symbolic link: the model's convert-dep5 reads a regular file only
         if t["lic"] != "toml" and rng.random() < 0.2:
             t["tl"] = rng.choice(sorted(TOML_LINKS) + ["dir"] + (["ignored-file"] if git else []))   # REUSE.toml is there, but not as a file the project reads
         return t
@@ -598,7 +645,23 @@ class UnmodelledStream(CommandStream):
             "clauses only (these variants are verified in depth under C19)")
 
     def cases(self, tier, rng):
-        for _ in range(150 if tier == "thorough" else 25):
+        thorough = tier == "thorough"
+        # `.reuse/dep5` is a symbolic link (relative, absolute, a chain; to a file inside the project or in the sentinel directory;
+        # dangling), or `.reuse` is a link to a directory (inside, outside) that holds dep5 (itself a file or a link): convert-dep5
+        # alone, after read-only commands, twice, followed by annotate / lint on the converted project
+        for dl in sorted(DEP5_LINKS):
+            for git in ((False, True) if thorough else (dl.startswith(("chain", "abs")),)):
+                tree = {"git": git, "tracked": git, "lic": "dep5", "sibs": [], "sl": False, "dl": dl}
+                yield {"tree": tree, "terms": [], "cmds": [{"cmd": "convert-dep5"}]}
+                yield {"tree": tree, "terms": [], "cmds": [{"cmd": rng.choice(["lint", "spdx", "lint-json"])}, {"cmd": "convert-dep5"},
+                                                           {"cmd": "annotate", "dot": rng.choice([None, "fallback"]), "recursive": True, "named": ["src"]},
+                                                           {"cmd": "convert-dep5"}, {"cmd": "lint"}]}
+                if thorough:
+                    for k in sorted(READ_ONLY) + ["lint-file"]:
+                        yield {"tree": tree, "terms": [], "cmds": [{"cmd": k, "named": ["a.c", "data.csv"]} if k == "lint-file" else {"cmd": k}]}
+                    yield {"tree": dict(tree, tl=rng.choice(sorted(TOML_LINKS))), "terms": [], "cmds": [{"cmd": "convert-dep5"}]}
+                    yield {"tree": tree, "terms": [], "cmds": [{"cmd": "annotate", "dot": "fallback", "recursive": True, "named": ["."]}, {"cmd": "convert-dep5"}]}
+        for _ in range(150 if thorough else 25):
             case = {"tree": self.gen_tree(rng), "terms": []}
             case["cmds"] = [gen_cmd(rng, case, False) for _ in range(rng.randint(1, 3))]
             if not any(c["cmd"] == "download" for c in case["cmds"]):
